@@ -6,10 +6,13 @@ import (
 
 type ClientTemplate struct {
 	Operations []ClientOperationTemplate
+	// BasePath - the path prefix the generated router serves under (LocalClient has to send requests there).
+	BasePath string
 }
 
-func NewClient(s *specification.Spec, ops []*Operation) ClientTemplate {
+func NewClient(s *specification.Spec, ops []*Operation, basePath string) ClientTemplate {
 	var c ClientTemplate
+	c.BasePath = basePath
 	c.Operations = make([]ClientOperationTemplate, 0, len(ops))
 	for _, o := range ops {
 		co := NewClientOperation(o)
